@@ -348,6 +348,10 @@ class Engine:
                 c1, c2 = operand_const(term["args"][1]), operand_const(term["args"][2])
                 cur = c1.get("int") if c1 else None
                 new = c2.get("int") if c2 else None
+            if cur is not None and cur == new:
+                # `compare_exchange(k, k, ..)`: a test of the word that changes nothing (whether it may serve as the uniqueness
+                # test - strong form, Acquire on success - is judged by C03's gate rules)
+                return ([mk(tag="Ok"), mk(tag="Err")], "LOAD", {"cas_test": cur})
             if cur is None or new is None or new <= cur:
                 nn = frozenset({"ATOMIC-OTHER:" + path + " (operands not constants with new > current)"})
                 return ([mk(notes=nn)], "ATOMIC-OTHER", path)
